@@ -109,3 +109,62 @@ package route
 //@   abstract
 //@   noinline
 //@   assert before HandlerFunc!: false
+
+// C12 (registration API): every route-registering method hands exactly the handlers it was given to
+// RouterGroup.handle, which is the one place where they are combined with the group's middleware (a chain that
+// is combined twice runs the middleware twice).
+//@ func RouterGroup.Handle(group, httpMethod, relativePath, handlers) r
+//@   props C12
+//@   abstract
+//@   noinline
+//@   panics
+//@   assert before handle: sameSlice(arg3, handlers) && arg0 == group
+//@ func RouterGroup.POST(group, relativePath, handlers) r
+//@   props C12
+//@   abstract
+//@   noinline
+//@   panics
+//@   assert before handle: sameSlice(arg3, handlers) && arg0 == group
+//@ func RouterGroup.GET(group, relativePath, handlers) r
+//@   props C12
+//@   abstract
+//@   noinline
+//@   panics
+//@   assert before handle: sameSlice(arg3, handlers) && arg0 == group
+//@ func RouterGroup.DELETE(group, relativePath, handlers) r
+//@   props C12
+//@   abstract
+//@   noinline
+//@   panics
+//@   assert before handle: sameSlice(arg3, handlers) && arg0 == group
+//@ func RouterGroup.PATCH(group, relativePath, handlers) r
+//@   props C12
+//@   abstract
+//@   noinline
+//@   panics
+//@   assert before handle: sameSlice(arg3, handlers) && arg0 == group
+//@ func RouterGroup.PUT(group, relativePath, handlers) r
+//@   props C12
+//@   abstract
+//@   noinline
+//@   panics
+//@   assert before handle: sameSlice(arg3, handlers) && arg0 == group
+//@ func RouterGroup.OPTIONS(group, relativePath, handlers) r
+//@   props C12
+//@   abstract
+//@   noinline
+//@   panics
+//@   assert before handle: sameSlice(arg3, handlers) && arg0 == group
+//@ func RouterGroup.HEAD(group, relativePath, handlers) r
+//@   props C12
+//@   abstract
+//@   noinline
+//@   panics
+//@   assert before handle: sameSlice(arg3, handlers) && arg0 == group
+//@ func RouterGroup.Any(group, relativePath, handlers) r
+//@   props C12
+//@   abstract
+//@   noinline
+//@   panics
+//@   assert before handle: sameSlice(arg3, handlers) && arg0 == group
+
